@@ -1,28 +1,133 @@
+// Command c19 exercises the reference / identity / canonical parsing and
+// formatting functions of fhirpath-go for property C19.
+//
+//	c19 types out.tla                      write spec/gen/C19Types.tla (R4 resource list from google/fhir)
+//	c19 run cases.ndjson obs.ndjson [rawN] replay TLC's cases; then rawN seeded byte-mutated neighbours
+//
+// Every case is observed through several "aspects" (one observation record
+// each); the TLA+ judge (spec/C19_Judge.tla) decides. Nothing here decides
+// whether an observation is right.
 package main
 
 import (
+	"encoding/json"
 	"fmt"
 	"os"
+	"runtime"
+	"strconv"
 
 	"github.com/verily-src/fhirpath-go/fhirpath/zzverif/lib"
 )
+
+type refDesc struct {
+	Shape string `json:"shape"`
+	Type  string `json:"type"`
+	Rid   string `json:"rid"`
+	Ver   string `json:"ver"`
+	Text  string `json:"text"`
+}
+
+type caseRec struct {
+	ID    string    `json:"id"`
+	Kind  string    `json:"kind"`
+	Type  string    `json:"type"`
+	Rid   string    `json:"rid"`
+	Ver   string    `json:"ver"`
+	Base  string    `json:"base"`
+	Ridc  string    `json:"ridc"`
+	Verc  string    `json:"verc"`
+	Basec string    `json:"basec"`
+	X     string    `json:"x"`
+	Text  string    `json:"text"`
+	Rel   string    `json:"rel"`
+	Valid bool      `json:"valid"`
+	Refs  []refDesc `json:"refs,omitempty"`
+	ci    int
+}
+
+// echo is the part of a case every observation carries back to the judge.
+func (c *caseRec) echo() map[string]any {
+	return map[string]any{"id": c.ID, "kind": c.Kind, "type": c.Type, "rid": c.Rid, "ver": c.Ver, "base": c.Base,
+		"ridc": c.Ridc, "verc": c.Verc, "basec": c.Basec, "x": c.X, "text": c.Text, "rel": c.Rel}
+}
 
 func main() {
 	if len(os.Args) >= 3 && os.Args[1] == "types" {
 		if err := writeTypesModule(os.Args[2]); err != nil {
 			lib.Fatal("%v", err)
 		}
-		fmt.Println(len(r4ResourceTypes()), len(referenceOneofFields()))
+		fmt.Println(len(r4ResourceTypes()))
 		return
 	}
-	lib.Fatal("usage")
+	if len(os.Args) < 4 || os.Args[1] != "run" {
+		lib.Fatal("usage: c19 types out.tla | c19 run cases.ndjson obs.ndjson [rawN]")
+	}
+	rawN := 0
+	if len(os.Args) >= 5 {
+		n, err := strconv.Atoi(os.Args[4])
+		if err != nil {
+			lib.Fatal("rawN: %v", err)
+		}
+		rawN = n
+	}
+	var cases []*caseRec
+	if err := lib.ReadNDJSON(os.Args[2], func(b []byte) error {
+		c := &caseRec{}
+		if err := json.Unmarshal(b, c); err != nil {
+			return err
+		}
+		c.ci = len(cases) + 1
+		cases = append(cases, c)
+		return nil
+	}); err != nil {
+		lib.Fatal("%v", err)
+	}
+	// self-check of the independent resource list against the Reference datatype
+	if err := selfCheckTypes(); err != nil {
+		lib.Fatal("%v", err)
+	}
+	if rawN > 0 {
+		cases = append(cases, rawCases(cases, rawN, lib.Seed())...)
+	}
+	w, err := lib.NewWriter(os.Args[3])
+	if err != nil {
+		lib.Fatal("%v", err)
+	}
+	initReadBack()
+	lib.ParallelMap(len(cases), runtime.NumCPU(), func(i int) {
+		c := cases[i]
+		for _, rec := range observe(c) {
+			rec["id"] = c.ID + "@" + rec["aspect"].(string)
+			rec["cs"] = c.echo()
+			rec["ci"] = c.ci
+			if err := w.Write(rec); err != nil {
+				lib.Fatal("%v", err)
+			}
+		}
+	})
+	if err := w.Close(); err != nil {
+		lib.Fatal("%v", err)
+	}
 }
 
-func init() {
-	if len(os.Args) >= 2 && os.Args[1] == "fields" {
-		for _, f := range referenceOneofFields() {
-			fmt.Println(f)
-		}
-		os.Exit(0)
+// observe runs every aspect of a case.
+func observe(c *caseRec) []map[string]any {
+	switch c.Kind {
+	case "rest":
+		return []map[string]any{aspIdentity(c), aspLitFmt(c), aspLitParse(c), aspIdentURL(c), aspStrongWeak(c), aspReadBack(c)}
+	case "frag":
+		return []map[string]any{aspLitParse(c), aspIdentURL(c), aspFragRef(c), aspReadBack(c)}
+	case "urn":
+		return []map[string]any{aspLitParse(c), aspIdentURL(c), aspWeakRef(c), aspReadBack(c)}
+	case "canon":
+		return []map[string]any{aspCanon(c), aspLitParse(c)}
+	case "empty":
+		return []map[string]any{aspLitParse(c), aspIdentURL(c), aspCanon(c), aspWeakRef(c), aspReadBack(c)}
+	case "pool":
+		return []map[string]any{aspIsRel(c)}
+	case "raw":
+		return []map[string]any{aspRaw(c)}
 	}
+	lib.Fatal("unknown case kind %q", c.Kind)
+	return nil
 }
